@@ -178,7 +178,7 @@ class RealSingleton:
     self.made = made
     self.dec = sg.SingletonDecorator(Probe)
     for k in sc.info["lock_attrs"]:
-      setattr(self.dec, k, R.LockProxy(d, "decorator.%s" % k))
+      setattr(self.dec, k, R.LockProxy(d, "decorator.%s" % k, getattr(self.dec, k)))
     R.auto_proxy(d, sc, {"decorator": self.dec})
     R.shared_attr(d, self.dec, "instance", "instance")
     # locks made on demand: the attribute is shared, and the module's lock constructor hands out proxies in allocation order
@@ -271,7 +271,7 @@ class RealTSA:
     self.o = Thing()
     desc = Thing.__dict__["x"]
     for k in sc.info["lock_attrs"]:
-      setattr(desc, k, R.LockProxy(d, "desc.%s" % k))
+      setattr(desc, k, R.LockProxy(d, "desc.%s" % k, getattr(desc, k)))
     R.auto_proxy(d, sc, {"desc": desc})
     for a in sc.info["shared_attrs"]:
       if not hasattr(desc, a):
@@ -650,7 +650,7 @@ class RealRegistry:
     for (modname, gname, mname) in sc.global_locks:
       mod = importlib.import_module(modname)
       self.locks.append((mod, gname, getattr(mod, gname)))
-      setattr(mod, gname, R.LockProxy(d, mname))
+      setattr(mod, gname, R.LockProxy(d, mname, getattr(mod, gname, None)))
     self.results, self.errors = {}, {}
     self.bodies = {t: self.body(t, kind, arg) for t, (kind, arg) in enumerate(sc.info["ops"])}
 
@@ -811,7 +811,7 @@ class RealFabricStart:
     fab.fabric_task_event = ev
     self.event = ev
     for k in info["lock_attrs"]:
-      setattr(fab, k, R.LockProxy(d, "fabric.%s" % k))
+      setattr(fab, k, R.LockProxy(d, "fabric.%s" % k, getattr(fab, k)))
     R.shared_attr(d, fab, "fifo_thread", "fabric.fifo_thread")
     R.shared_attr(d, fab, "lifo_thread", "fabric.lifo_thread")
     self.results, self.errors = {}, {}
@@ -1519,7 +1519,7 @@ class RealPublishers:
         self.undo.append(lambda _k=k, _o=old: setattr(FE, _k, itertools.count()))
       elif kind == "RLock":
         old = FE.__dict__[k]
-        setattr(FE, k, R.LockProxy(d, name))
+        setattr(FE, k, R.LockProxy(d, name, old))
         self.undo.append(lambda _k=k, _o=old: setattr(FE, _k, _o))
     cells = {k: "FabricEvent.%s" % k for k, kind in info["class_state"].items() if kind == "attr"}
     if cells:
